@@ -159,6 +159,14 @@ func extFreshID(fr *frame, args []value) value {
 	return fmt.Sprintf("f%023x", fr.i.cx.fresh)
 }
 
+func extCtxNoCancel(fr *frame, args []value) value {
+	pkg := fr.i.prog.ImportedPackage(HarnessPkg)
+	if pkg == nil || pkg.Func("Noop") == nil {
+		fr.i.cx.unsupported("context cancellation without the harness package")
+	}
+	return tuple{args[0], pkg.Func("Noop")}
+}
+
 // zeroOf returns the zero result of the called function (used by prefix stubs).
 func stubZero(fr *frame, args []value) value { return zeroResult(fr.fn) }
 
@@ -205,6 +213,16 @@ func init() {
 			}
 			return iface{t: itf.t, v: out}
 		},
+		// deadlines and cancellation never fire in a sequential run: the derived
+		// context is the parent, the cancel function does nothing
+		"context.WithTimeout":  extCtxNoCancel,
+		"context.WithDeadline": extCtxNoCancel,
+		"context.WithCancel":   extCtxNoCancel,
+		// RPC headers (shard keys) are routing hints for the gateway: unobserved
+		"(net/http.Header).Add": noop,
+		"(net/http.Header).Set": noop,
+		"(net/http.Header).Del": noop,
+		"(net/http.Header).Get": func(fr *frame, args []value) value { return "" },
 		"time.Now":   ext۰time۰Now,
 		"time.Since": ext۰time۰Since,
 		"google.golang.org/protobuf/proto.Marshal":   ext۰proto۰Marshal,
